@@ -30,6 +30,28 @@ def find_extraction(s, fn: FuncInfo):
     return found
 
 
+def find_offset_form(s, fn: FuncInfo):
+    """(loop, counter name, buffer key, B) for a callback that leaves the buffer B = buffer + data alone inside its loop and counts the bytes
+    consumed in a local that is 0 at loop entry (the buffer is trimmed once on the way out); None when fn does not have this shape."""
+    if len(fn.params) < 2:
+        return None
+    self_p, data_p = fn.params[0], fn.params[1]
+    found = None
+    for l in [l for l in find_loops(fn.node) if l in s.loops and isinstance(l, ast.While)]:
+        info = s.loops[l]
+        for k, v in info["entry"].env.items():
+            if "." in k or v != ("const", 0) or info["head"].env.get(k) != ("loopvar", k, l.lineno):
+                continue
+            for bk, bv in info["entry"].env.items():
+                ev_ = strip(bv)
+                if bk.startswith(self_p + ".") and bk.count(".") == 1 and (
+                        (ev_[0] == "bin" and ev_[1] == "+" and strip(ev_[3]) == ("param", data_p) and strip(ev_[2]) == ("attr", ("param", self_p), bk.split(".", 1)[1])) or
+                        (ev_[0] == "mut" and ev_[1] == "extend" and len(ev_[3]) == 1 and strip(ev_[3][0]) == ("param", data_p)
+                         and strip(ev_[2]) == ("attr", ("param", self_p), bk.split(".", 1)[1]))):
+                    found = (l, k, bk, ev_)
+    return found
+
+
 def lower_bound(t, facts) -> Optional[int]:
     t = strip(t)
     if is_const(t) and isinstance(t[1], int) and not isinstance(t[1], bool):
@@ -62,18 +84,31 @@ def put_length_bound(prog: Program, fn: FuncInfo) -> Optional[int]:
     try:
         s = summarize(prog, fn)
         loop, buf_key = find_extraction(s, fn)
+        plain = False
         if loop is None:
-            return None
-        info = s.loops[loop]
-        Bh = ("loopvar", buf_key, loop.lineno)
+            off_form = find_offset_form(s, fn)
+            if off_form is None:
+                return None
+            # offsets into the untouched buffer B, counted from B.find(marker, consumed): the view is B[that offset:]
+            loop, cname, buf_key, Bh = off_form
+            cvar, plain = ("loopvar", cname, loop.lineno), True
+            if any(strip(st.env.get(buf_key, ("top",))) != Bh for st in s.loops[loop]["ends"] + s.loops[loop]["continues"]):
+                return None
 
-        def is_off(sym):
-            y = strip(sym)
-            return meth_is(y, "find") and strip(y[1][1]) == Bh
+            def is_off(sym):
+                y = strip(sym)
+                return meth_is(y, "find") and strip(y[1][1]) == Bh and len(y[2]) == 2 and strip(y[2][1]) == cvar
+        else:
+            Bh = ("loopvar", buf_key, loop.lineno)
+
+            def is_off(sym):
+                y = strip(sym)
+                return meth_is(y, "find") and strip(y[1][1]) == Bh
+        info = s.loops[loop]
         used = []
 
         def oc(x):
-            return offset_canon(x, Bh, is_off, used)
+            return offset_canon(x, Bh, is_off, used, plain_view=plain)
         sites = ancestor_chains(prog, fn, lambda f, n: isinstance(n.func, ast.Attribute) and n.func.attr == "put_nowait")
         tl = term_lookup(prog, fn)
         if not sites or any(not any(x is loop for ch in chains for x, _f in ch) for _f, _n, chains in sites):
